@@ -38,6 +38,57 @@ pub fn library() -> Vec<PkgSpec> {
     ]
 }
 
+/// LibDep: interfaces that `use` types of other interfaces, in two versions on one semver
+/// track, so that an import's type depends on another import ("and the interfaces those
+/// types depend on").
+pub fn lib_dep_wit(version: &str, extra_in_t: &str) -> String {
+    format!(
+        r#"
+package a:b@{version};
+
+interface t {{
+  record rec {{ a: u32 }}
+  enum en {{ p, q }}
+  f: func() -> rec;
+  {extra_in_t}
+}}
+
+interface j {{
+  use t.{{rec}};
+  g: func(r: rec);
+}}
+
+interface k {{
+  use t.{{en}};
+  use j.{{rec}};
+  h: func(e: en, r: rec);
+}}
+
+world wt {{ import t; export o: func(); }}
+world wj {{ import j; export o: func(); }}
+world wk {{ import k; export o: func(); }}
+world prov {{ export t; }}
+world provj {{ import t; export j; }}
+"#
+    )
+}
+
+pub fn lib_dep() -> Vec<PkgSpec> {
+    use mc_core::libs::component_from_wit;
+    let w0 = lib_dep_wit("0.2.0", "");
+    let w1 = lib_dep_wit("0.2.1", "f2: func(e: en) -> en;");
+    let mk = |wit: &str, world: &str| component_from_wit(&[("d.wit", wit)], world).unwrap_or_else(|e| panic!("LibDep {world}: {e:?}"));
+    vec![
+        PkgSpec::from_component("d:wt0", None, mk(&w0, "wt")),
+        PkgSpec::from_component("d:wj0", None, mk(&w0, "wj")),
+        PkgSpec::from_component("d:wk0", None, mk(&w0, "wk")),
+        PkgSpec::from_component("d:wt1", None, mk(&w1, "wt")),
+        PkgSpec::from_component("d:wj1", None, mk(&w1, "wj")),
+        PkgSpec::from_component("d:prov0", None, mk(&w0, "prov")),
+        PkgSpec::from_component("d:provj1", None, mk(&w1, "provj")),
+    ]
+}
+
 pub fn universe(prop: &'static str, tier: Tier) -> Universe {
     let mut u = Universe::build(prop, library());
     u.add_import_kind_from_import(1, "a:b/i@0.2.1");
@@ -56,6 +107,34 @@ pub fn universe(prop: &'static str, tier: Tier) -> Universe {
     u
 }
 
+pub fn universe_dep(prop: &'static str, tier: Tier) -> Universe {
+    let mut u = Universe::build(prop, lib_dep());
+    u.add_import_kind_from_import(1, "a:b/j@0.2.0");
+    let s = |v: &[&str]| v.iter().map(|x| x.to_string()).collect::<Vec<_>>();
+    u.alias_names = s(&["a:b/t@0.2.0", "a:b/j@0.2.1", "o"]);
+    u.import_names = s(&["a:b/j@0.2.0"]);
+    u.export_names = s(&["e1"]);
+    u.arg_names = s(&["a:b/t@0.2.0", "a:b/j@0.2.0", "a:b/k@0.2.0", "a:b/t@0.2.1", "a:b/j@0.2.1"]);
+    u.node_names = vec![];
+    u.define_names = vec![];
+    u.names = classify_names(&["a:b/t@0.2.0", "a:b/j@0.2.0", "a:b/k@0.2.0", "a:b/t@0.2.1", "a:b/j@0.2.1", "o", "e1"]);
+    u.dependency_imports = s(&["a:b/t@0.2.0", "a:b/j@0.2.0", "a:b/t@0.2.1", "a:b/j@0.2.1"]).into_iter().collect();
+    u.max_nodes = tier.pick(5, 6);
+    u.max_pkgs = 7;
+    u.ops = ["Instantiate", "Alias", "Import", "SetArg", "Export"].into_iter().collect();
+    u
+}
+
+pub fn seeds_dep() -> Vec<Vec<Op>> {
+    let reg: Vec<Op> = (0..7).map(Op::Register).collect();
+    let with = |ops: Vec<Op>| -> Vec<Op> { reg.iter().cloned().chain(ops).collect() };
+    vec![
+        with(vec![]),
+        // a provider of t whose export is ready to satisfy a dependency while the dependant stays implicit
+        with(vec![Op::Instantiate(5), Op::Alias(0, "a:b/t@0.2.0".into())]),
+    ]
+}
+
 pub fn seeds() -> Vec<Vec<Op>> {
     let reg: Vec<Op> = (0..13).map(Op::Register).collect();
     let with = |ops: Vec<Op>| -> Vec<Op> { reg.iter().cloned().chain(ops).collect() };
@@ -69,7 +148,8 @@ pub fn seeds() -> Vec<Vec<Op>> {
 pub fn run(args: &[String]) {
     let mut ctx = Ctx::new("C03", "model_checking", args);
     if let Some(case) = ctx.replay_case().cloned() {
-        let u = universe("C03", if case["tier"] == "thorough" { Tier::Thorough } else { Tier::Quick });
+        let rt = if case["tier"] == "thorough" { Tier::Thorough } else { Tier::Quick };
+        let u = if case["library"] == "LibDep" { universe_dep("C03", rt) } else { universe("C03", rt) };
         let ops: Vec<Op> = serde_json::from_value(case["ops"].clone()).unwrap_or_else(|e| mc_core::machinery_error(&format!("bad ops: {e}")));
         let (_, v) = replay_history(&u, &ops, Some(&wiring_and_interface_check));
         for (fp, what) in v {
@@ -109,7 +189,7 @@ pub fn run(args: &[String]) {
         insts.sort();
         let exports: Vec<String> = m.exports.iter().map(|(n, id)| format!("{n}={}", describe(m, *id))).collect();
         let imports: Vec<String> = m.imports.iter().map(|(n, id)| format!("{n}:{:?}", m.nodes[id].item)).collect();
-        let canon = format!("{define}|{}|{}|{}", insts.join(";"), exports.join(";"), imports.join(";"));
+        let canon = format!("{}|{define}|{}|{}|{}", u.pkgs[0].name, insts.join(";"), exports.join(";"), imports.join(";"));
         let d = decode(bytes).expect("decoded above");
         let mut imp: Vec<String> = d.imports.iter().map(|(n, k)| format!("{n}:{k:?}:{}", d.import_types.get(n).cloned().unwrap_or_default())).collect();
         imp.sort();
@@ -157,7 +237,32 @@ pub fn run(args: &[String]) {
         case["tier"] = json!(tier.as_str());
         ctx.violation(f.fingerprint, f.what, case);
     }
+    // LibDep: imports whose types depend on other interfaces
+    let ud = universe_dep("C03", tier);
+    let depth_dep = tier.pick(5, 6);
+    let t0 = std::time::Instant::now();
+    let (stats_dep, found_dep) = bfs(&ud, &seeds_dep(), depth_dep, Some(&extra), tier.pick(2_000_000, 30_000_000), None);
+    eprintln!("C03 LibDep: {} states, {} transitions, {:.1}s", stats_dep.states, stats_dep.transitions, t0.elapsed().as_secs_f64());
+    for f in found_dep {
+        let mut case = f.case;
+        case["tier"] = json!(tier.as_str());
+        case["library"] = json!("LibDep");
+        ctx.violation(f.fingerprint.replacen("C03/", "C03/LibDep/", 1), f.what, case);
+    }
     let mut cov = coverage(&u, &stats, depth, seeds().len());
+    cov.insert("states".into(), json!(stats.states + stats_dep.states));
+    cov.insert("transitions".into(), json!(stats.transitions + stats_dep.transitions));
+    cov.insert("evaluations".into(), json!(stats.transitions + stats_dep.transitions));
+    cov.insert("distinct_nontrivial".into(), json!(stats.states + stats_dep.states));
+    cov.insert("traces_validated_against_impl".into(), json!(stats.replayed + stats_dep.replayed));
+    cov.insert("exhaustive".into(), json!(!stats.cap_hit && !stats_dep.cap_hit));
+    cov.insert(
+        "libdep".into(),
+        json!({"states": stats_dep.states, "transitions": stats_dep.transitions, "depth_bound": depth_dep, "depth_completed": stats_dep.depth_completed,
+            "cap_hit": stats_dep.cap_hit, "encode_outcomes": stats_dep.encode_classes, "per_operation_counts": stats_dep.per_op, "unspecified_cases": stats_dep.unspecified,
+            "packages": ud.pkgs.iter().map(|p| p.name.clone()).collect::<Vec<_>>(),
+            "rule": "second BFS over WIT-derived packages whose imported interfaces `use` types of each other (t; j uses t; k uses t and j) in versions 0.2.0 and 0.2.1: besides the checks of the first library, every instance import's members must be the union its sharers need at a type one of them requires, every interface an imported type depends on must be imported, and no other import may appear"}),
+    );
     let gm = group_members.lock().unwrap();
     cov.insert("order_insensitive_groups".into(), json!(gm.len()));
     cov.insert("groups_with_several_creation_orders".into(), json!(gm.values().filter(|n| **n > 1).count()));
